@@ -172,7 +172,9 @@ func (c *Ctx) Violate(key, what string, replay interface{}) {
 	}
 }
 
-func (c *Ctx) Note(f string, a ...interface{}) { c.Res.Notes = append(c.Res.Notes, fmt.Sprintf(f, a...)) }
+func (c *Ctx) Note(f string, a ...interface{}) {
+	c.Res.Notes = append(c.Res.Notes, fmt.Sprintf(f, a...))
+}
 
 type checkFn func(c *Ctx)
 
@@ -196,7 +198,7 @@ func runMain() {
 	}
 	root, _ := filepath.Abs(filepath.Join(filepath.Dir(os.Args[4]), "..", "..", "..", ".."))
 	ctx := &Ctx{Prop: prop, Tier: tier, Seed: seed, Rng: rand.New(rand.NewSource(seed)), Driver: os.Args[4],
-		Res: &Result{Property: prop, Tier: tier, Seed: seed, Rule: rules[prop], Distribution: map[string]int{}, Disagreements: []Disagreement{}, Violations: []Violation{}, Samples: []string{}, Notes: []string{}},
+		Res:  &Result{Property: prop, Tier: tier, Seed: seed, Rule: rules[prop], Distribution: map[string]int{}, Disagreements: []Disagreement{}, Violations: []Violation{}, Samples: []string{}, Notes: []string{}},
 		seen: map[string]bool{}, start: time.Now(), Root: root}
 	budget := 60 * time.Second
 	if tier == "thorough" {
